@@ -64,6 +64,7 @@ func (s *storage) Remove(ctx context.Context, id uuid.UUID, seq uint32) (iscp.Da
 }
 
 type impl struct {
+	diag     string // diagnostics of the last incomplete resume (goes into the evidence)
 	b        *broker.Broker
 	conn     *iscp.Conn
 	up       *iscp.Upstream
@@ -156,7 +157,7 @@ func (i *impl) open(pol, qos, pre string, defaultStore bool) string {
 	i.b.HoldAcks = true
 	i.b.Register()
 	i.st = &storage{VerifSentStorage: iscp.VerifNewInmemSentStorage(), removed: map[uint32]bool{}, stored: map[uint32]bool{}}
-	opts := []iscp.ConnOption{iscp.WithConnPingInterval(20 * time.Millisecond), iscp.WithConnPingTimeout(2 * time.Second)}
+	opts := []iscp.ConnOption{iscp.WithConnPingInterval(20 * time.Millisecond), iscp.WithConnPingTimeout(400 * time.Millisecond)}
 	if defaultStore {
 		i.st = nil // whatever sent storage the library chooses by itself
 	} else {
@@ -585,6 +586,15 @@ func (i *impl) exec(op string) string {
 		i.waiting = map[uint32]bool{} // everything outstanding was retransmitted and acknowledged (or dropped with the store for non-reliable QoS)
 		if !ok {
 			rep += " RESUME-INCOMPLETE"
+			i.b.Lock()
+			nInc, dials := len(i.b.Incs), i.b.Dials
+			i.b.Unlock()
+			var last []string
+			lg := i.b.LogFrom(0)
+			for k := len(lg) - 1; k >= 0 && len(last) < 8; k-- {
+				last = append(last, fmt.Sprintf("%d:%T", lg[k].Inc, lg[k].Msg))
+			}
+			i.diag = fmt.Sprintf("op=%s status=%d incs=%d dials=%d last=%v", op, i.conn.VerifConnStatus(), nInc, dials, last)
 		}
 		return rep + fmt.Sprintf(" resumed=%s resent=[%s]", sameID, strings.Join(resent, ";"))
 	case "state":
@@ -595,6 +605,13 @@ func (i *impl) exec(op string) string {
 
 // concurrent: k goroutines write their own data id, others call Flush; the broker acknowledges by itself
 func (i *impl) concurrent(h *lp.H, k, n int, pol string, seed int64) string {
+	return i.concurrentX(h, k, n, pol, seed, false)
+}
+
+// concurrentX with raceClose: Close is called while the writers are still writing; acks are delayed by 15 ms. A write that
+// returned nil must be on the broker's ledger before the close request and counted in its total; a write refused because the
+// stream is closing is not a failure.
+func (i *impl) concurrentX(h *lp.H, k, n int, pol string, seed int64, raceClose bool) string {
 	if i.conn != nil {
 		c, cancel := context.WithTimeout(context.Background(), 200*time.Millisecond)
 		i.conn.Close(c)
@@ -610,7 +627,21 @@ func (i *impl) concurrent(h *lp.H, k, n int, pol string, seed int64) string {
 	}
 	i.conn = conn
 	var opt iscp.UpstreamOption
-	if pol == "realinterval" {
+	if raceClose {
+		i.b.Policy = func(inc *broker.Inc, m message.Message) bool {
+			if c, ok := m.(*message.UpstreamChunk); ok {
+				go func() {
+					time.Sleep(15 * time.Millisecond)
+					inc.AckChunks([]uint32{c.StreamChunk.SequenceNumber}, c.StreamIDAlias, message.ResultCodeSucceeded, true, c.DataIDs)
+				}()
+				return true
+			}
+			return false
+		}
+	}
+	if pol == "interval300" {
+		opt = iscp.WithUpstreamFlushPolicyIntervalOnly(300 * time.Millisecond)
+	} else if pol == "realinterval" {
 		opt = iscp.WithUpstreamFlushPolicyIntervalOnly(time.Millisecond)
 	} else {
 		rp, _ := realPolicy(strings.Replace(pol, "ios:", "size:", 1))
@@ -644,6 +675,9 @@ func (i *impl) concurrent(h *lp.H, k, n int, pol string, seed int64) string {
 			for j := 0; j < n; j++ {
 				pts := fmt.Sprintf("%d/%s", j, lp.Hex([]byte{byte(g), byte(j), byte(j >> 8)}[:1+(j%3)]))
 				if err := up.WriteDataPoints(ctx, dp.ID(g+1), dp.ParsePoints(pts)...); err != nil {
+					if raceClose {
+						return // refused: the stream is closing
+					}
 					amu.Lock()
 					failed = "write failed: " + err.Error()
 					amu.Unlock()
@@ -652,11 +686,22 @@ func (i *impl) concurrent(h *lp.H, k, n int, pol string, seed int64) string {
 				amu.Lock()
 				i.accepted[g+1] = append(i.accepted[g+1], pts)
 				amu.Unlock()
-				if j%17 == g%17 {
+				if j%17 == g%17 && !raceClose {
 					up.Flush(ctx)
 				}
 			}
 		}(g)
+	}
+	if raceClose {
+		time.Sleep(time.Duration(1+seed%4) * time.Millisecond)
+		if err := up.Close(ctx); err != nil {
+			h.Violate("Close failed on a live connection with an acknowledging broker: " + err.Error())
+			wg.Wait()
+			return "ok"
+		}
+		wg.Wait()
+		i.oracle(h)
+		return "ok"
 	}
 	wg.Wait()
 	if failed != "" {
@@ -817,6 +862,9 @@ func main() {
 	im := &impl{}
 	do := func(op string) string {
 		out := im.exec(op)
+		if im.diag != "" {
+			h.Extra["resume-incomplete"] = im.diag
+		}
 		h.Op(op, out)
 		if out == "hang" || strings.HasPrefix(out, "err") {
 			h.Violate("upstream call failed or blocked on a connection that stays up: " + op + " -> " + out)
